@@ -324,7 +324,7 @@ def check(ctx, case):
 
 def shard_main(ctx):
     from hypothesis import given
-    n = {"quick": 150, "thorough": 6000}[ctx.tier]
+    n = {"quick": 150, "thorough": 3500}[ctx.tier]
 
     @given(cases())
     def test(case):
